@@ -121,6 +121,12 @@ class SpecialFamily(Family):
                     lines, st = gen.gen_special(L, K, rng, rng.randrange(6, 30))
                     self.add_stats(st)
                     scripts.append((gen.script_id(lines), lines, None))
+                if not (K[1] or K[3]):
+                    for _ in range(4 * mult):
+                        r = gen.gen_move_smaller_block(L, K, rng)
+                        if r is not None:
+                            self.add_stats(r[1])
+                            scripts.append((gen.script_id(r[0]), r[0], None))
                 jobs.append(Job(L, K, scripts, tag="special"))
         return jobs
 
@@ -419,6 +425,30 @@ class Multi(Family):
 FAMILIES = {}
 
 
+def followup_jobs(prop, L, rng):
+    """operation scripts for ONE list on which the static sweep found a disagreement, so that
+    the property's oracle can look for a concrete failing input there"""
+    scripts = []
+    K = K_DEFAULT
+    if prop in ("C13", "C14"):
+        for _ in range(10):
+            lines, _ = gen.gen_compare(L, K, rng)
+            scripts.append((gen.script_id(lines), lines, None))
+    elif prop == "C11":
+        for _ in range(10):
+            lines, _ = gen.gen_proxy(L, K, rng)
+            scripts.append((gen.script_id(lines), lines, None))
+    else:
+        strict = prop not in ("C02", "C10")
+        for _ in range(8):
+            lines, _ = gen.gen_history(L, K, rng, rng.randrange(6, 30), False)
+            scripts.append((gen.script_id(lines), lines, None))
+        for _ in range(6):
+            lines, _ = gen.gen_fill(L, K, rng, strict, prop == "C10")
+            scripts.append((gen.script_id(lines), lines, None))
+    return [Job(L, K, scripts, statics_for(L, rng), tag="followup")]
+
+
 def replay_jobs(path, tag="replay"):
     """a replay file is a script file (header + BEGIN/END blocks)"""
     L, K, statics, scripts, cur = [], K_DEFAULT, [], [], None
@@ -443,7 +473,7 @@ def replay_jobs(path, tag="replay"):
     return [Job(L, K, scripts, statics, tag=tag + path)]
 
 
-def shrink(v, prop, run_pair, canon, split_blocks, first_diff, orc, rundir, budget=80):
+def shrink(v, prop, run_pair, canon, split_blocks, first_diff, orc, rundir, strip_markers=None, budget=80):
     """delta debugging on the op list: drop operations while the script stays valid and
     still shows an oracle violation (preferred) or a disagreement"""
     j = v.get("job")
@@ -466,9 +496,10 @@ def shrink(v, prop, run_pair, canon, split_blocks, first_diff, orc, rundir, budg
         il, ml = canon(ib.get("s", [])), canon(mb.get("s", []))
         ov = orc.check(prop, j.L, j.K, lines, ib.get("s", []))
         d = first_diff(il, ml)
+        agrees = strip_markers is not None and first_diff(canon(strip_markers(ib.get("s", []))), canon(strip_markers(mb.get("s", [])))) is None
         if want_oracle:
-            return (ov, d) if ov else None
-        return (ov, d) if (ov or d is not None) else None
+            return (ov, d, agrees) if ov else None
+        return (ov, d, agrees) if (ov or d is not None) else None
 
     lines = list(v["script"])
     best = None
@@ -486,8 +517,10 @@ def shrink(v, prop, run_pair, canon, split_blocks, first_diff, orc, rundir, budg
             if r is not None:
                 lines, best, changed = cand, r, True
     if best is not None:
-        ov, d = best
+        ov, d, agrees = best
         v = dict(v)
+        # a known finding is one the faithful model reproduces: keep the static-layout verdict of the job
+        v["model_agrees"] = bool(v.get("model_agrees_static", True)) and agrees
         v["script"] = lines
         v["oracle"] = ov
         v["detail"] = ov[0] if ov else "impl: %s | model: %s (line %d)" % (d[1], d[2], d[0])
